@@ -74,37 +74,104 @@ theorem searchR_skip (f : FS) (gs : Path) (r P : List String) (k' : Nat) :
       simp only [Bool.false_eq_true, if_false]
       exact ih (by omega) (fun i a b => hskip i a (by omega))
 
-/-- side conditions of the pkgDir theorem (all decidable, see `Props.C16.domPkgDir`) -/
-structure DomP (f : FS) (goPath : Path) (r P : List String) : Prop where
+/-- well-formedness of the arguments of the pkgDir theorems — conditions on the form of the inputs, no
+    divergence class: GOPATH is a clean path (relative for an `io/fs` file system, which accepts no other
+    name), the root and the import path are clean, the import path is not empty, and the tree holds the
+    parent of every vendored directory it holds (true of any file system). -/
+structure WF (f : FS) (goPath : Path) (r P : List String) : Prop where
   goodGo : goodPath goPath = true
   relGo : f.mapfs = true → NormRel goPath = true
   normR : NormRel r = true
   normP : NormRel P = true
   neP : P ≠ []
-  /-- a candidate is never a regular file -/
-  candNotFile : ∀ k, k ≤ r.length → f.stat (vd (goPath ++ ["src"]) r k ++ P) ≠ .file
-  gopathNotFile : f.stat (goPath ++ ["src"] ++ P) ≠ .file
-  /-- the tree is closed under parents where it matters, and vendored packages have Go files -/
-  vendorClosed : ∀ k, k ≤ r.length → Spec.isDir f (vd (goPath ++ ["src"]) r k ++ P) = true →
-    Spec.isDir f (vd (goPath ++ ["src"]) r k) = true ∧ Spec.hasGo f (vd (goPath ++ ["src"]) r k ++ P) = true
-  /-- nothing answers to effectivePkg(level, path) below GOPATH/src/<level> -/
-  noneUnderRoot : ∀ k, 1 ≤ k → k ≤ r.length →
-    f.exists (join [goPath, [W.src], effectivePkg (pathOf (r.take k)) P]) = false
-  /-- no regular file named vendor in a proper ancestor of the root -/
-  vendorNotFile : ∀ k, 1 ≤ k → k < r.length → f.stat (vd (goPath ++ ["src"]) r k) ≠ .file
+  parents : ∀ k, k ≤ r.length → Spec.isDir f (vd (goPath ++ ["src"]) r k ++ P) = true →
+    Spec.isDir f (vd (goPath ++ ["src"]) r k) = true
+
+/-- pkgDir alone looks at directories only: nearest level at or below `k` whose `vendor/<P>` is a directory -/
+def searchD (f : FS) (gs : Path) (r P : List String) : Nat → Option Nat
+  | 0 => if Spec.isDir f (vd gs r 0 ++ P) then some 0 else none
+  | k + 1 => if Spec.isDir f (vd gs r (k + 1) ++ P) then some (k + 1) else searchD f gs r P k
+
+def dirResult (f : FS) (gs : Path) (r P : List String) (k : Nat) : DirR :=
+  match searchD f gs r P k with
+  | some j => .found (vd gs r j ++ P) (r.take j ++ ["vendor"])
+  | none => if Spec.isDir f (gs ++ P) then .found (gs ++ P) emptyS else .notFound
+
+theorem searchD_skip (f : FS) (gs : Path) (r P : List String) (k' : Nat) :
+    ∀ m, k' ≤ m → (∀ i, k' < i → i ≤ m → Spec.isDir f (vd gs r i ++ P) = false) →
+      searchD f gs r P m = searchD f gs r P k' := by
+  intro m
+  induction m with
+  | zero => intro h _; have : k' = 0 := by omega
+            subst this; rfl
+  | succ m ih =>
+    intro hle hskip
+    by_cases heq : k' = m + 1
+    · subst heq; rfl
+    · have hu : searchD f gs r P (m + 1) =
+          if Spec.isDir f (vd gs r (m + 1) ++ P) = true then some (m + 1) else searchD f gs r P m := rfl
+      rw [hu, hskip (m + 1) (by omega) (by omega)]
+      simp only [Bool.false_eq_true, if_false]
+      exact ih (by omega) (fun i a b => hskip i a (by omega))
+
+/-- what `searchD` returns: a level with a directory, nothing nearer -/
+theorem searchD_spec (f : FS) (gs : Path) (r P : List String) :
+    ∀ k, (searchD f gs r P k = none ∧ ∀ i, i ≤ k → Spec.isDir f (vd gs r i ++ P) = false) ∨
+      (∃ j, j ≤ k ∧ searchD f gs r P k = some j ∧ Spec.isDir f (vd gs r j ++ P) = true ∧
+        ∀ i, j < i → i ≤ k → Spec.isDir f (vd gs r i ++ P) = false) := by
+  intro k
+  induction k with
+  | zero =>
+    unfold searchD
+    by_cases h : Spec.isDir f (vd gs r 0 ++ P) = true
+    · right; exact ⟨0, by omega, by simp [h], h, by intro i a b; omega⟩
+    · left; simp only [Bool.not_eq_true] at h
+      refine ⟨by simp [h], ?_⟩
+      intro i hi; have : i = 0 := by omega
+      subst this; exact h
+  | succ n ih =>
+    unfold searchD
+    by_cases h : Spec.isDir f (vd gs r (n + 1) ++ P) = true
+    · right; exact ⟨n + 1, by omega, by simp [h], h, by intro i a b; omega⟩
+    · simp only [Bool.not_eq_true] at h
+      simp only [h, Bool.false_eq_true, if_false]
+      rcases ih with ⟨h1, h2⟩ | ⟨j, hj1, hj2, hj3, hj4⟩
+      · left; refine ⟨h1, ?_⟩
+        intro i hi
+        by_cases hi' : i = n + 1
+        · subst hi'; exact h
+        · exact h2 i (by omega)
+      · right; refine ⟨j, by omega, hj2, hj3, ?_⟩
+        intro i a b
+        by_cases hi' : i = n + 1
+        · subst hi'; exact h
+        · exact hj4 i a (by omega)
 
 theorem goodPath_gs (goPath : Path) (h : goodPath goPath = true) : goodPath (goPath ++ ["src"]) = true :=
   goodPath_append goPath ["src"] h (by decide)
 
-theorem exists_iff_isDir (f : FS) (p : Path) (hok : nameOK f p) (hnf : f.stat p ≠ .file) :
-    f.exists p = Spec.isDir f p := by
-  unfold FS.exists Spec.isDir
-  rw [stat_ok f p hok] at hnf ⊢
+/-- the candidate test of pkgDir (`isDir`) on a name the file system accepts: membership in the directories -/
+theorem cand_iff_isDir (f : FS) (p : Path) (hok : nameOK f p) : f.cand W p = Spec.isDir f p := by
+  have hc : W.candMustBeDir = true := rfl
+  unfold FS.cand FS.isDir Spec.isDir
+  rw [hc, stat_ok f p hok]
   by_cases h1 : p ∈ f.dirs
   · simp [h1]
   · by_cases h2 : p ∈ f.files
-    · simp [h1, h2] at hnf
     · simp [h1, h2]
+    · simp [h1, h2]
+
+theorem pathOf_ne_noRoot (l : List String) (h : NormRel l = true) : (pathOf l == [W.noRoot]) = false := by
+  have hn : W.noRoot = ".." := rfl
+  rw [hn]
+  cases l with
+  | nil => decide
+  | cons a b =>
+    have ha : normElem a = true := by
+      simp only [NormRel, List.all_cons, Bool.and_eq_true] at h; exact h.1
+    have : a ≠ ".." := by
+      intro h0; subst h0; simp [normElem] at ha
+    simp [pathOf, this]
 
 theorem isDir_false_of_stat (f : FS) (p : Path) (hok : nameOK f p) (h : f.stat p ≠ .dir) : Spec.isDir f p = false := by
   unfold Spec.isDir
@@ -137,16 +204,17 @@ theorem take_take_le (r : List String) (i k : Nat) (h : i ≤ k) : (r.take k).ta
 theorem vd_take (gs : Path) (r : List String) (i k : Nat) (h : i ≤ k) : vd gs (r.take k) i = vd gs r i := by
   unfold vd; rw [take_take_le r i k h]
 
-/-- **pkgDir = the Go vendor search**, level by level -/
-theorem pkgDir_levels (f : FS) (goPath : Path) (r P : List String) (D : DomP f goPath r P) :
+/-- **pkgDir alone = the nearest enclosing `vendor/<P>` directory, else `GOPATH/src/<P>`**, level by level -/
+theorem pkgDir_levels (f : FS) (goPath : Path) (r P : List String) (D : WF f goPath r P) :
     ∀ k, k ≤ r.length → ∀ fuel, k + 1 ≤ fuel →
-      pkgDir W f goPath fuel (pathOf (r.take k)) P = resultFrom f (goPath ++ ["src"]) r P k := by
+      pkgDir W f goPath fuel (pathOf (r.take k)) P = dirResult f (goPath ++ ["src"]) r P k := by
   have hgs := goodPath_gs goPath D.goodGo
   have hmgs : f.mapfs = true → NormRel (goPath ++ ["src"]) = true := by
     intro h; rw [normRel_append, D.relGo h]; rfl
   have hsrc : W.src = "src" := rfl
   have hvdir : W.vendorDir = "vendor" := rfl
   have hvf : W.vendorFirst = true := rfl
+  have heffc : W.effCandidate = false := rfl
   -- the two candidate directories
   have hrp : ∀ k, join [pathOf (r.take k), [W.vendorDir]] = r.take k ++ ["vendor"] := by
     intro k
@@ -166,6 +234,14 @@ theorem pkgDir_levels (f : FS) (goPath : Path) (r P : List String) (D : DomP f g
       simp [vd]
     rw [join_good _ (by
       rw [hf]; exact goodPath_append _ _ (goodPath_append _ _ (goodPath_lv _ r k hgs D.normR) (by decide)) D.normP), hf]
+  have hd2 : join [goPath, [W.src], P] = goPath ++ ["src"] ++ P := by
+    rw [hsrc]
+    have hP : P = pathOf P := by simp [pathOf, D.neP]
+    have hf : flat [goPath, ["src"], P] = goPath ++ ["src"] ++ P := by
+      rw [flat_cons_good _ _ D.goodGo, flat_cons_elem _ _ (by decide)]
+      conv => lhs; rw [hP]
+      rw [flat_cons_pathOf _ _ D.normP, flat_nil]; simp
+    rw [join_good _ (by rw [hf]; exact goodPath_append _ _ hgs D.normP), hf]
   have hrpath : ∀ k, join [goPath, [W.src], pathOf (r.take k)] = goPath ++ ["src"] ++ r.take k := by
     intro k
     have hnk := normRel_take r k D.normR
@@ -178,58 +254,35 @@ theorem pkgDir_levels (f : FS) (goPath : Path) (r P : List String) (D : DomP f g
     have := nameOK_append f (goPath ++ ["src"]) (r.take k ++ ["vendor"] ++ P) hmgs hgs
       (by rw [normRel_append, normRel_append, normRel_take r k D.normR, D.normP]; rfl)
     simpa [vd, List.append_assoc] using this
-  have hhit : ∀ k, k ≤ r.length → f.exists (vd (goPath ++ ["src"]) r k ++ P) = Spec.vendorHit f (goPath ++ ["src"]) r P k := by
-    intro k hk
-    rw [exists_iff_isDir f _ (hokcand k) (D.candNotFile k hk)]
-    unfold Spec.vendorHit
-    show _ = (Spec.isDir f (vd (goPath ++ ["src"]) r k) && Spec.isDir f (vd (goPath ++ ["src"]) r k ++ P) &&
-      Spec.hasGo f (vd (goPath ++ ["src"]) r k ++ P))
-    by_cases h : Spec.isDir f (vd (goPath ++ ["src"]) r k ++ P) = true
-    · have := D.vendorClosed k hk h
-      simp [h, this.1, this.2]
-    · simp only [Bool.not_eq_true] at h; simp [h]
   intro k
   induction k using Nat.strongRecOn with
   | _ k ih =>
     intro hk fuel hfuel
     obtain ⟨fuel', rfl⟩ : ∃ n, fuel = n + 1 := ⟨fuel - 1, by omega⟩
     unfold pkgDir
-    simp only [hvf, if_true]
-    rw [hrp k, hd1 k, hhit k hk]
-    by_cases hv : Spec.vendorHit f (goPath ++ ["src"]) r P k = true
+    simp only [hvf, heffc, if_true, pathOf_ne_noRoot _ (normRel_take r k D.normR), Bool.false_eq_true, if_false, Bool.false_or]
+    rw [hrp k, hd1 k, hd2, cand_iff_isDir f _ (hokcand k),
+      cand_iff_isDir f _ (nameOK_append f _ P hmgs hgs D.normP)]
+    by_cases hv : Spec.isDir f (vd (goPath ++ ["src"]) r k ++ P) = true
     · -- found in this level's vendor directory
       simp only [hv, if_true, Option.orElse]
-      unfold resultFrom
+      unfold dirResult
       cases k with
-      | zero => simp [searchR, hv]
-      | succ n => simp [searchR, hv]
+      | zero => simp [searchD, hv]
+      | succ n => simp [searchD, hv]
     · simp only [Bool.not_eq_true] at hv
       simp only [hv, Bool.false_eq_true, if_false, Option.orElse]
       cases k with
       | zero =>
         -- GOPATH/src/<path>, then give up
-        have heff : effectivePkg (pathOf (r.take 0)) P = P := by
-          have := effectivePkg_empty_root P D.normP D.neP
-          simpa [pathOf] using this
-        have hd2 : join [goPath, [W.src], effectivePkg (pathOf (r.take 0)) P] = goPath ++ ["src"] ++ P := by
-          rw [heff, hsrc]
-          have hP : P = pathOf P := by simp [pathOf, D.neP]
-          have hf : flat [goPath, ["src"], P] = goPath ++ ["src"] ++ P := by
-            rw [flat_cons_good _ _ D.goodGo, flat_cons_elem _ _ (by decide)]
-            conv => lhs; rw [hP]
-            rw [flat_cons_pathOf _ _ D.normP, flat_nil]; simp
-          rw [join_good _ (by rw [hf]; exact goodPath_append _ _ hgs D.normP), hf]
-        rw [hd2, exists_iff_isDir f _ (nameOK_append f _ P hmgs hgs D.normP) D.gopathNotFile]
-        unfold resultFrom
-        simp only [searchR, hv, Bool.false_eq_true, if_false]
+        unfold dirResult
+        simp only [searchD, hv, Bool.false_eq_true, if_false]
         have hemp0 : isEmptyS (pathOf (r.take 0)) = true := by simp [pathOf, isEmptyS, emptyS]
         have hp0 : pathOf (r.take 0) = emptyS := by simp [pathOf]
         cases hg : Spec.isDir f (goPath ++ ["src"] ++ P) with
-        | true => simp only [if_true, hp0]
-        | false => simp only [Bool.false_eq_true, if_false, hemp0, if_true]
+        | true => simp [pathOf, isEmptyS, emptyS]
+        | false => simp [pathOf, isEmptyS, emptyS]
       | succ n =>
-        rw [D.noneUnderRoot (n + 1) (by omega) hk]
-        simp only [Bool.false_eq_true, if_false]
         have hne : r.take (n + 1) ≠ [] := by
           intro h; rw [List.take_eq_nil_iff] at h
           rcases h with h | h
@@ -238,44 +291,36 @@ theorem pkgDir_levels (f : FS) (goPath : Path) (r P : List String) (D : DomP f g
         have hnk := normRel_take r (n + 1) D.normR
         have hemp : isEmptyS (pathOf (r.take (n + 1))) = false := by
           rw [isEmptyS_pathOf _ hnk]; simpa using hne
-        simp only [hemp, Bool.false_eq_true, if_false]
+        simp only [hemp, Bool.false_eq_true, if_false, Bool.false_and]
         rw [hrpath (n + 1)]
         have hpo : pathOf (r.take (n + 1)) = r.take (n + 1) := by simp [pathOf, hne]
         rw [hpo]
         have hlen : (r.take (n + 1)).length = n + 1 := by simp; omega
         obtain ⟨k', hk'1, hk'2, hk'3⟩ := previousRoot_levels f (goPath ++ ["src"]) (r.take (n + 1)) hgs hmgs hnk hne
-          (by
-            intro i hi1 hi2
-            rw [hlen] at hi2
-            rw [vd_take _ r i (n + 1) (by omega)]
-            exact D.vendorNotFile i hi1 (by omega))
         rw [hlen] at hk'1
         rw [hk'2, take_take_le r k' (n + 1) (by omega)]
         simp only
         rw [ih k' (by omega) (by omega) fuel' (by omega)]
-        unfold resultFrom
-        have hs : searchR f (goPath ++ ["src"]) r P (n + 1) = searchR f (goPath ++ ["src"]) r P k' := by
-          have h1 : searchR f (goPath ++ ["src"]) r P (n + 1) = searchR f (goPath ++ ["src"]) r P n := by
-            conv => lhs; unfold searchR
+        unfold dirResult
+        have hs : searchD f (goPath ++ ["src"]) r P (n + 1) = searchD f (goPath ++ ["src"]) r P k' := by
+          have h1 : searchD f (goPath ++ ["src"]) r P (n + 1) = searchD f (goPath ++ ["src"]) r P n := by
+            conv => lhs; unfold searchD
             simp [hv]
           rw [h1]
-          apply searchR_skip f _ r P k' n (by omega)
+          apply searchD_skip f _ r P k' n (by omega)
           intro i hi1 hi2
           have hnd := hk'3 i hi1 (by rw [hlen]; omega)
           rw [vd_take _ r i (n + 1) (by omega)] at hnd
-          have := isDir_false_of_stat f _ (nameOK_vd f _ r i hmgs hgs D.normR) hnd
-          unfold Spec.vendorHit
-          show (Spec.isDir f (vd (goPath ++ ["src"]) r i) && _ && _) = false
-          simp [this]
+          have hvdf := isDir_false_of_stat f _ (nameOK_vd f _ r i hmgs hgs D.normR) hnd
+          cases hc : Spec.isDir f (vd (goPath ++ ["src"]) r i ++ P) with
+          | false => rfl
+          | true => rw [D.parents i (by omega) hc] at hvdf; cases hvdf
         rw [hs]
 
-
-/-- **Termination**: on a clean root, with no regular file named `vendor` among its proper ancestors,
-    `root.length + 1` nested calls are enough — pkgDir neither runs out of the model's fuel nor stops on
-    an error, whatever the import path and whatever else the tree contains. -/
+/-- **Termination**: on a clean root `root.length + 1` nested calls are enough — pkgDir neither runs out of
+    the model's fuel nor stops on an error, whatever the import path and whatever the tree contains. -/
 theorem pkgDir_no_fuel (f : FS) (goPath : Path) (r : List String) (P : Path)
-    (hgo : goodPath goPath = true) (hrel : f.mapfs = true → NormRel goPath = true) (hr : NormRel r = true)
-    (hfile : ∀ k, 1 ≤ k → k < r.length → f.stat (vd (goPath ++ ["src"]) r k) ≠ .file) :
+    (hgo : goodPath goPath = true) (hrel : f.mapfs = true → NormRel goPath = true) (hr : NormRel r = true) :
     ∀ k, k ≤ r.length → ∀ fuel, k + 1 ≤ fuel →
       pkgDir W f goPath fuel (pathOf (r.take k)) P ≠ .fuel ∧ pkgDir W f goPath fuel (pathOf (r.take k)) P ≠ .err := by
   have hgs := goodPath_gs goPath hgo
@@ -295,9 +340,11 @@ theorem pkgDir_no_fuel (f : FS) (goPath : Path) (r : List String) (P : Path)
     intro hk fuel hfuel
     obtain ⟨fuel', rfl⟩ : ∃ n, fuel = n + 1 := ⟨fuel - 1, by omega⟩
     unfold pkgDir
-    simp only
-    generalize f.exists (join [goPath, [W.src], join [pathOf (r.take k), [W.vendorDir]], P]) = e1
-    generalize f.exists (join [goPath, [W.src], effectivePkg (pathOf (r.take k)) P]) = e2
+    simp only [pathOf_ne_noRoot _ (normRel_take r k hr), Bool.false_eq_true, if_false]
+    generalize f.cand W (join [goPath, [W.src], join [pathOf (r.take k), [W.vendorDir]], P]) = e1
+    generalize ((W.effCandidate || isEmptyS (pathOf (r.take k))) &&
+      f.cand W (if W.effCandidate = true then join [goPath, [W.src], effectivePkg (pathOf (r.take k)) P]
+        else join [goPath, [W.src], P])) = e2
     cases e1 <;> cases e2 <;> cases W.vendorFirst <;>
       simp only [Bool.false_eq_true, if_false, if_true, Option.orElse, ne_eq, reduceCtorEq, not_false_eq_true, and_self]
     all_goals
@@ -318,13 +365,236 @@ theorem pkgDir_no_fuel (f : FS) (goPath : Path) (r : List String) (P : Path)
         rw [hpo]
         have hlen : (r.take (n + 1)).length = n + 1 := by simp; omega
         obtain ⟨k', hk'1, hk'2, _⟩ := previousRoot_levels f (goPath ++ ["src"]) (r.take (n + 1)) hgs hmgs hnk hne
-          (by
-            intro i hi1 hi2
-            rw [hlen] at hi2
-            rw [vd_take _ r i (n + 1) (by omega)]
-            exact hfile i hi1 (by omega))
         rw [hlen] at hk'1
         rw [hk'2, take_take_le r k' (n + 1) (by omega)]
         exact ih k' (by omega) (by omega) fuel' (by omega)
+
+/-! ### goPkgDir: the vendored directories without Go files are skipped -/
+
+theorem base_snoc (l : List String) (x : String) (hx : x ≠ "") : base (l ++ [x]) = x := by
+  unfold base
+  have he : isEmptyS (l ++ [x]) = false := by
+    cases l with
+    | nil => simp [isEmptyS, hx]
+    | cons a b => cases b <;> simp [isEmptyS]
+  simp [he, hx]
+
+theorem hasGoFiles_eq (f : FS) (d : Path) (hok : nameOK f d) : f.hasGoFiles d = Spec.hasGo f d := by
+  unfold FS.hasGoFiles Spec.hasGo
+  have hv : (!f.mapfs || validPath d) = true := by
+    by_cases hm : f.mapfs = true
+    · have := hok hm; simp [validPath_norm d this.1 this.2]
+    · simp [hm]
+  rw [hv, Bool.true_and]
+  rfl
+
+theorem defaultFuel_take (r : List String) (k : Nat) (hk : k ≤ r.length) : k + 1 ≤ defaultFuel (pathOf (r.take k)) := by
+  unfold defaultFuel pathOf
+  by_cases h : (r.take k).isEmpty = true
+  · have : k = 0 := by
+      rw [List.isEmpty_iff, List.take_eq_nil_iff] at h
+      rcases h with h | h
+      · exact h
+      · subst h; simpa using hk
+    subst this; simp [emptyS]
+  · simp only [h, Bool.false_eq_true, if_false, List.length_take]; omega
+
+theorem dir_single (a : String) : dir [a] = ["."] := by
+  simp [dir, clean, isRooted, cleanStep]
+
+/-- from `noRoot` only GOPATH/src/<P> is looked at -/
+theorem pkgDir_noRoot (f : FS) (goPath : Path) (P : List String) (hgo : goodPath goPath = true)
+    (hrel : f.mapfs = true → NormRel goPath = true) (hP : NormRel P = true) (hne : P ≠ []) (fuel : Nat) :
+    pkgDir W f goPath (fuel + 1) [W.noRoot] P =
+      if Spec.isDir f (goPath ++ ["src"] ++ P) then .found (goPath ++ ["src"] ++ P) emptyS else .notFound := by
+  have hgs := goodPath_gs goPath hgo
+  have hmgs : f.mapfs = true → NormRel (goPath ++ ["src"]) = true := by
+    intro h; rw [normRel_append, hrel h]; rfl
+  have hsrc : W.src = "src" := rfl
+  have hd2 : join [goPath, [W.src], P] = goPath ++ ["src"] ++ P := by
+    rw [hsrc]
+    have hP' : P = pathOf P := by simp [pathOf, hne]
+    have hf : flat [goPath, ["src"], P] = goPath ++ ["src"] ++ P := by
+      rw [flat_cons_good _ _ hgo, flat_cons_elem _ _ (by decide)]
+      conv => lhs; rw [hP']
+      rw [flat_cons_pathOf _ _ hP, flat_nil]; simp
+    rw [join_good _ (by rw [hf]; exact goodPath_append _ _ hgs hP), hf]
+  unfold pkgDir
+  have hvf : W.vendorFirst = true := rfl
+  have heffc : W.effCandidate = false := rfl
+  simp only [BEq.rfl, if_true, hvf, heffc, Bool.false_eq_true, if_false, Bool.false_or]
+  rw [hd2, cand_iff_isDir f _ (nameOK_append f _ P hmgs hgs hP)]
+  cases Spec.isDir f (goPath ++ ["src"] ++ P) <;> simp [isEmptyS, emptyS, Option.orElse]
+
+theorem vendorHit_false_of_dir (f : FS) (gs : Path) (r P : List String) (i : Nat)
+    (h : Spec.isDir f (vd gs r i ++ P) = false) : Spec.vendorHit f gs r P i = false := by
+  unfold Spec.vendorHit
+  show (Spec.isDir f (vd gs r i) && Spec.isDir f (vd gs r i ++ P) && _) = false
+  simp [h]
+
+/-- **goPkgDir = the Go vendor search**, level by level: nearest enclosing `vendor/<P>` directory *holding Go
+    files*, else `GOPATH/src/<P>` -/
+theorem goPkgDir_levels (f : FS) (goPath : Path) (r P : List String) (D : WF f goPath r P) :
+    ∀ k, k ≤ r.length → ∀ n, k + 3 ≤ n →
+      goPkgDir W f goPath n (pathOf (r.take k)) P = resultFrom f (goPath ++ ["src"]) r P k := by
+  have hgs := goodPath_gs goPath D.goodGo
+  have hmgs : f.mapfs = true → NormRel (goPath ++ ["src"]) = true := by
+    intro h; rw [normRel_append, D.relGo h]; rfl
+  have hokcand : ∀ k, nameOK f (vd (goPath ++ ["src"]) r k ++ P) := by
+    intro k
+    have := nameOK_append f (goPath ++ ["src"]) (r.take k ++ ["vendor"] ++ P) hmgs hgs
+      (by rw [normRel_append, normRel_append, normRel_take r k D.normR, D.normP]; rfl)
+    simpa [vd, List.append_assoc] using this
+  have hven : W.vendor = "vendor" := rfl
+  have hnoR : W.noRoot = ".." := rfl
+  intro k
+  induction k using Nat.strongRecOn with
+  | _ k ih =>
+    intro hk n hn
+    obtain ⟨n', rfl⟩ : ∃ m, n = m + 1 := ⟨n - 1, by omega⟩
+    unfold goPkgDir
+    rw [pkgDir_levels f goPath r P D k hk _ (defaultFuel_take r k hk)]
+    unfold dirResult
+    rcases searchD_spec f (goPath ++ ["src"]) r P k with ⟨h1, h2⟩ | ⟨j, hj1, hj2, hj3, hj4⟩
+    · -- no vendored directory at all
+      rw [h1]
+      have hsr : searchR f (goPath ++ ["src"]) r P k = none := by
+        have h0 : searchR f (goPath ++ ["src"]) r P 0 = none := by
+          unfold searchR
+          rw [vendorHit_false_of_dir f _ r P 0 (h2 0 (by omega))]; simp
+        rw [searchR_skip f _ r P 0 k (by omega)
+          (fun i _ hi => vendorHit_false_of_dir f _ r P i (h2 i hi)), h0]
+      unfold resultFrom
+      rw [hsr]
+      cases Spec.isDir f (goPath ++ ["src"] ++ P) with
+      | true => simp [base, isEmptyS, emptyS, hven]
+      | false => simp
+    · rw [hj2]
+      simp only
+      have hb : base (r.take j ++ ["vendor"]) = "vendor" := base_snoc _ _ (by decide)
+      rw [hb, hven, hasGoFiles_eq f _ (hokcand j)]
+      have hskip : ∀ i, j < i → i ≤ k → Spec.vendorHit f (goPath ++ ["src"]) r P i = false :=
+        fun i a b => vendorHit_false_of_dir f _ r P i (hj4 i a b)
+      cases hgo : Spec.hasGo f (vd (goPath ++ ["src"]) r j ++ P) with
+      | true =>
+        -- the Go rule takes this directory too
+        simp only [bne_self_eq_false, Bool.false_or, if_true]
+        unfold resultFrom
+        rw [searchR_skip f _ r P j k hj1 hskip]
+        have hhit : Spec.vendorHit f (goPath ++ ["src"]) r P j = true := by
+          unfold Spec.vendorHit
+          show (Spec.isDir f (vd (goPath ++ ["src"]) r j) && Spec.isDir f (vd (goPath ++ ["src"]) r j ++ P) &&
+            Spec.hasGo f (vd (goPath ++ ["src"]) r j ++ P)) = true
+          rw [D.parents j (by omega) hj3, hj3, hgo]; rfl
+        cases j with
+        | zero => simp [searchR, hhit]
+        | succ m => simp [searchR, hhit]
+      | false =>
+        -- no Go files: go on from the level above
+        simp only [bne_self_eq_false, Bool.false_or, Bool.false_eq_true, if_false]
+        have hmiss : Spec.vendorHit f (goPath ++ ["src"]) r P j = false := by
+          unfold Spec.vendorHit
+          show (Spec.isDir f (vd (goPath ++ ["src"]) r j) && Spec.isDir f (vd (goPath ++ ["src"]) r j ++ P) &&
+            Spec.hasGo f (vd (goPath ++ ["src"]) r j ++ P)) = false
+          rw [hgo]; simp
+        cases j with
+        | zero =>
+          have hd : dir (r.take 0 ++ ["vendor"]) = ["."] := by simp [dir_single]
+          rw [hd]
+          simp only [BEq.rfl, if_true]
+          obtain ⟨n'', rfl⟩ : ∃ m, n' = m + 1 := ⟨n' - 1, by omega⟩
+          unfold goPkgDir
+          have hdf : defaultFuel [W.noRoot] = 19 + 1 := rfl
+          rw [hdf, pkgDir_noRoot f goPath P D.goodGo D.relGo D.normP D.neP]
+          unfold resultFrom
+          have hsr : searchR f (goPath ++ ["src"]) r P k = none := by
+            rw [searchR_skip f _ r P 0 k (by omega) hskip]
+            unfold searchR; rw [hmiss]; simp
+          rw [hsr]
+          cases Spec.isDir f (goPath ++ ["src"] ++ P) with
+          | true => simp [base, isEmptyS, emptyS, hven]
+          | false => simp
+        | succ m =>
+          have hm : m < r.length := by omega
+          have hne : r.take (m + 1) ≠ [] := by
+            intro h; rw [List.take_eq_nil_iff] at h
+            rcases h with h | h
+            · omega
+            · subst h; simp at hm
+          have hnk := normRel_take r (m + 1) D.normR
+          have hd : dir (r.take (m + 1) ++ ["vendor"]) = r.take (m + 1) :=
+            dir_snoc _ _ (goodPath_of_normRel _ hnk hne)
+          rw [hd]
+          have hnd : (r.take (m + 1) == ["."]) = false := by
+            have hs : r.take (m + 1) = r.take m ++ [r[m]] := by
+              rw [List.take_add_one, List.getElem?_eq_getElem hm]; simp
+            rw [hs] at hnk ⊢
+            rw [normRel_append] at hnk
+            simp only [Bool.and_eq_true] at hnk
+            have : r[m] ≠ "." := by
+              intro h0; rw [h0] at hnk; simp [NormRel, normElem] at hnk
+            cases htm : r.take m with
+            | nil => simp [this]
+            | cons a b => simp
+          simp only [hnd, Bool.false_eq_true, if_false]
+          have hroot : (if (dir (r.take (m + 1)) == ["."]) = true then emptyS else dir (r.take (m + 1))) = pathOf (r.take m) := by
+            have hs : r.take (m + 1) = r.take m ++ [r[m]] := by
+              rw [List.take_add_one, List.getElem?_eq_getElem hm]; simp
+            cases m with
+            | zero =>
+              rw [hs]; simp [dir_single, pathOf]
+            | succ m' =>
+              have hne' : r.take (m' + 1) ≠ [] := by
+                intro h; rw [List.take_eq_nil_iff] at h
+                rcases h with h | h
+                · omega
+                · subst h; simp at hm
+              have hnk' := normRel_take r (m' + 1) D.normR
+              rw [hs, dir_snoc _ _ (goodPath_of_normRel _ hnk' hne')]
+              have hnd' : (r.take (m' + 1) == ["."]) = false := by
+                have hs' : r.take (m' + 1) = r.take m' ++ [r[m']] := by
+                  rw [List.take_add_one, List.getElem?_eq_getElem (by omega)]; simp
+                rw [hs'] at hnk' ⊢
+                rw [normRel_append] at hnk'
+                simp only [Bool.and_eq_true] at hnk'
+                have : r[m'] ≠ "." := by
+                  intro h0; rw [h0] at hnk'; simp [NormRel, normElem] at hnk'
+                cases htm : r.take m' with
+                | nil => simp [this]
+                | cons a b => simp
+              simp [hnd', pathOf, hne']
+          rw [hroot, ih m (by omega) (by omega) n' (by omega)]
+          unfold resultFrom
+          have hsr : searchR f (goPath ++ ["src"]) r P k = searchR f (goPath ++ ["src"]) r P m := by
+            apply searchR_skip f _ r P m k (by omega)
+            intro i a b
+            by_cases hi : i = m + 1
+            · subst hi; exact hmiss
+            · exact hskip i (by omega) b
+          rw [hsr]
+
+/-- goPkgDir never runs out of the model's fuel nor stops on an error -/
+theorem goPkgDir_ok (f : FS) (goPath : Path) (r P : List String) (D : WF f goPath r P) (n : Nat) (hn : r.length + 3 ≤ n) :
+    goPkgDir W f goPath n (pathOf r) P ≠ .fuel ∧ goPkgDir W f goPath n (pathOf r) P ≠ .err := by
+  have := goPkgDir_levels f goPath r P D r.length (Nat.le_refl _) n hn
+  rw [List.take_length] at this
+  rw [this]
+  unfold resultFrom
+  have shape : ∀ k x, searchR f (goPath ++ ["src"]) r P k = some x → ∃ d rp, x = .found d rp := by
+    intro k
+    induction k with
+    | zero =>
+      intro x hx; unfold searchR at hx
+      split at hx
+      · exact ⟨_, _, by simpa using hx.symm⟩
+      · cases hx
+    | succ m ih =>
+      intro x hx; unfold searchR at hx
+      split at hx
+      · exact ⟨_, _, by simpa using hx.symm⟩
+      · exact ih x hx
+  cases hs : searchR f (goPath ++ ["src"]) r P r.length with
+  | some x => obtain ⟨d, rp, rfl⟩ := shape _ x hs; simp
+  | none => simp only; split <;> simp
 
 end YaegiVerif.Src
